@@ -306,6 +306,30 @@ pub struct Image {
     pub bytes: Vec<u8>,
     /// true where the byte is defined by the content (not padding / spare room)
     pub mask: Vec<bool>,
+    /// header / constrained fields written by the encoder (for boundary substitution and corruption)
+    pub fields: Vec<HeaderField>,
+}
+
+#[derive(Clone, Debug, PartialEq)]
+pub enum FieldKind {
+    Bool,
+    Tag { variants: usize },
+    Len { cap: usize },
+    Offset { remaining: usize, header: usize, max: u128 },
+    /// string payload: [off, off+size) are the UTF-8 bytes
+    Utf8,
+}
+
+#[derive(Clone, Debug, PartialEq)]
+pub struct HeaderField {
+    pub off: usize,
+    pub size: usize,
+    pub be: bool,
+    pub kind: FieldKind,
+    /// nesting depth of the field's owner
+    pub depth: usize,
+    /// largest container element index on the way to the field
+    pub max_index: usize,
 }
 
 /// Encode `v` into a region of `n` bytes pre-filled with `fill`.
@@ -313,8 +337,9 @@ pub fn encode(ty: &Ty, v: &Value, n: usize, fill: u8, style: &mut dyn Style) -> 
     let mut img = Image {
         bytes: vec![fill; n],
         mask: vec![false; n],
+        fields: vec![],
     };
-    enc(ty, v, &mut img, 0, n, style)?;
+    enc(ty, v, &mut img, 0, n, style, (0, 0))?;
     Ok(img)
 }
 
@@ -326,10 +351,23 @@ fn put(img: &mut Image, off: usize, data: &[u8]) {
 }
 
 /// Encode into img[off .. off+n]. Returns extent (relative to off).
-fn enc(ty: &Ty, v: &Value, img: &mut Image, off: usize, n: usize, style: &mut dyn Style) -> Result<usize, DoesNotFit> {
+fn enc(ty: &Ty, v: &Value, img: &mut Image, off: usize, n: usize, style: &mut dyn Style, ctx: (usize, usize)) -> Result<usize, DoesNotFit> {
     if n < min_size(ty) {
         return Err(DoesNotFit);
     }
+    let (depth, max_index) = ctx;
+    let sub = (depth + 1, max_index);
+    let native_be = cfg!(target_endian = "big");
+    let field = |img: &mut Image, off: usize, size: usize, be: bool, kind: FieldKind| {
+        img.fields.push(HeaderField {
+            off,
+            size,
+            be,
+            kind,
+            depth,
+            max_index,
+        })
+    };
     match (ty, v) {
         (Ty::Unit, _) => Ok(0),
         (Ty::Prim(_), _) | (Ty::PInt { .. }, _) | (Ty::PFloat { .. }, _) => {
@@ -341,13 +379,14 @@ fn enc(ty: &Ty, v: &Value, img: &mut Image, off: usize, n: usize, style: &mut dy
         }
         (Ty::Bool, _) => {
             put(img, off, &[v.scalar() as u8]);
+            field(img, off, 1, false, FieldKind::Bool);
             Ok(1)
         }
         (Ty::Array(t, k), Value::Array(xs)) => {
             assert_eq!(xs.len(), *k);
             let s = size(t);
             for (i, x) in xs.iter().enumerate() {
-                enc(t, x, img, off + i * s, s, style)?;
+                enc(t, x, img, off + i * s, s, style, (depth + 1, max_index.max(i)))?;
             }
             Ok(s * k)
         }
@@ -357,7 +396,7 @@ fn enc(ty: &Ty, v: &Value, img: &mut Image, off: usize, n: usize, style: &mut dy
             let mut end = 0;
             for (i, (f, x)) in s.fields.iter().zip(fs).enumerate() {
                 let room = if i + 1 < s.fields.len() || f.is_sized() { size(f) } else { n - offs[i] };
-                end = offs[i] + enc(f, x, img, off + offs[i], room, style)?;
+                end = offs[i] + enc(f, x, img, off + offs[i], room, style, sub)?;
             }
             Ok(if s.sized { size(ty) } else { end })
         }
@@ -365,6 +404,7 @@ fn enc(ty: &Ty, v: &Value, img: &mut Image, off: usize, n: usize, style: &mut dy
             let mut tb = vec![0u8; e.tag.size()];
             put_uint(&mut tb, *i as u128, cfg!(target_endian = "big"));
             put(img, off, &tb);
+            field(img, off, e.tag.size(), native_be, FieldKind::Tag { variants: e.variants.len() });
             let d = enum_data_offset(e);
             let n = if e.sized { size(ty) } else { round_down(n, align(ty)) };
             let fields = &e.variants[*i].fields;
@@ -375,7 +415,7 @@ fn enc(ty: &Ty, v: &Value, img: &mut Image, off: usize, n: usize, style: &mut dy
             let mut end = e.tag.size();
             for (k, (f, x)) in fields.iter().zip(fs).enumerate() {
                 let room = if k + 1 < fields.len() || f.is_sized() { size(f) } else { n - d - offs[k] };
-                end = d + offs[k] + enc(f, x, img, off + d + offs[k], room, style)?;
+                end = d + offs[k] + enc(f, x, img, off + d + offs[k], room, style, sub)?;
             }
             Ok(if e.sized { size(ty) } else { end })
         }
@@ -386,10 +426,11 @@ fn enc(ty: &Ty, v: &Value, img: &mut Image, off: usize, n: usize, style: &mut dy
             let mut lb = vec![0u8; l.size()];
             put_len(&mut lb, *l, xs.len() as u128);
             put(img, off, &lb);
+            field(img, off, l.size(), l.big_endian() || (!l.is_portable() && native_be), FieldKind::Len { cap: capacity(ty, n) });
             let d = data_offset(ty);
             let s = size(t);
             for (i, x) in xs.iter().enumerate() {
-                enc(t, x, img, off + d + i * s, s, style)?;
+                enc(t, x, img, off + d + i * s, s, style, (depth + 1, max_index.max(i)))?;
             }
             Ok(d + xs.len() * s)
         }
@@ -400,6 +441,9 @@ fn enc(ty: &Ty, v: &Value, img: &mut Image, off: usize, n: usize, style: &mut dy
             let mut lb = vec![0u8; l.size()];
             put_len(&mut lb, *l, st.len() as u128);
             put(img, off, &lb);
+            let lbe = l.big_endian() || (!l.is_portable() && native_be);
+            field(img, off, l.size(), lbe, FieldKind::Len { cap: capacity(ty, n) });
+            field(img, off + l.size(), st.len(), false, FieldKind::Utf8);
             put(img, off + l.size(), st.as_bytes());
             Ok(l.size() + st.len())
         }
@@ -415,10 +459,18 @@ fn enc(ty: &Ty, v: &Value, img: &mut Image, off: usize, n: usize, style: &mut dy
                     return Err(DoesNotFit);
                 }
                 let last = i + 1 == xs.len();
+                let lbe = l.big_endian() || (!l.is_portable() && native_be);
+                let okind = FieldKind::Offset {
+                    remaining: n - pos,
+                    header: os,
+                    max: l.max(),
+                };
+                let ictx = (depth + 1, max_index.max(i));
                 if last && !zero_term {
                     put_len(&mut lb, *l, l.max());
                     put(img, off + pos, &lb);
-                    let e = enc(t, x, img, off + pos + os, n - pos - os, style)?;
+                    field(img, off + pos, l.size(), lbe, okind);
+                    let e = enc(t, x, img, off + pos + os, n - pos - os, style, ictx)?;
                     return Ok(pos + os + e);
                 }
                 let mut stride = os + round_up(size_of(t, x), a) + style.flex_slack() * a;
@@ -435,7 +487,8 @@ fn enc(ty: &Ty, v: &Value, img: &mut Image, off: usize, n: usize, style: &mut dy
                 }
                 put_len(&mut lb, *l, stride as u128);
                 put(img, off + pos, &lb);
-                enc(t, x, img, off + pos + os, stride - os, style)?;
+                field(img, off + pos, l.size(), lbe, okind);
+                enc(t, x, img, off + pos + os, stride - os, style, ictx)?;
                 pos += stride;
             }
             if pos + l.size() > n {
@@ -443,6 +496,18 @@ fn enc(ty: &Ty, v: &Value, img: &mut Image, off: usize, n: usize, style: &mut dy
             }
             put_len(&mut lb, *l, 0);
             put(img, off + pos, &lb);
+            let lbe = l.big_endian() || (!l.is_portable() && native_be);
+            field(
+                img,
+                off + pos,
+                l.size(),
+                lbe,
+                FieldKind::Offset {
+                    remaining: n - pos,
+                    header: os,
+                    max: l.max(),
+                },
+            );
             Ok(pos + l.size())
         }
         _ => panic!("harness: value {:?} does not match type {:?}", v, ty),
